@@ -683,6 +683,8 @@ def run_history(case, ctx, compare_every=True, after_step=None, at_end=None):
                               "step %d %r raised %s but the Gfa changed:\n  %s"
                               % (si, st, out.cls(), "\n  ".join(d[:4])), prop="C08")
             shape.append("F:probe")
+            if ctx.prop == "C09":
+                _placeholder_oracle(ctx, g, model, st, si, "after-refused-")
             if after_step is not None and model.closed() and not model.unspecified_state():
                 ctx.count("judged_after_refused_call")
                 if after_step(g, model, st):
@@ -751,6 +753,8 @@ def run_history(case, ctx, compare_every=True, after_step=None, at_end=None):
                               "step %d %r raised %s but the Gfa changed:\n  %s"
                               % (si, st, out.cls(), "\n  ".join(d[:4])), prop="C08")
             shape.append("F:" + kind)
+            if ctx.prop == "C09":
+                _placeholder_oracle(ctx, g, model, st, si, "after-refused-")
             if after_step is not None and model.closed() and not model.unspecified_state():
                 ctx.count("judged_after_refused_call")
                 if after_step(g, model, st):
@@ -927,6 +931,34 @@ def _lookup_oracle(ctx, g, model, st, si, version):
         elif freed in listed and not any(m == freed for x in model.recs for m, role in T.mentions(x)):
             ctx.violation("freed-identifier-listed/%s" % st["op"],
                           "after step %d %r: %r is still listed in names" % (si, st, freed), prop="C09")
+
+
+def _placeholder_oracle(ctx, g, model, st, si, prefix=""):
+    """placeholders exist exactly for the identifiers which are mentioned but not defined; every
+    identifier which gfa.names lists is carried by a record or mentioned by one."""
+    want = model.names()
+    mentioned = {m for x in model.recs for m, role in T.mentions(x)}
+    try:
+        virt = [l for l in g.lines if l.virtual and l.record_type in ("S", "\n")]
+        listed = [n for n in g.names if isinstance(n, str)]
+    except Exception:
+        return
+    ctx.count("placeholder_oracle_evaluations")
+    for l in virt:
+        try:
+            pn = l.name
+        except Exception:
+            continue
+        if isinstance(pn, str) and (pn not in mentioned or pn in want):
+            ctx.violation("stale-placeholder/%s%s/%s" % (prefix, st["op"], "defined" if pn in want else "unmentioned"),
+                          "after step %d %r: a placeholder for %r is kept although %s"
+                          % (si, st, pn, "a line carries that identifier" if pn in want else "no line mentions it"), prop="C09")
+            return
+    for n in listed:
+        if n not in want and n not in mentioned:
+            ctx.violation("names-extra/%s%s" % (prefix, st["op"]), "after step %d %r: names lists %r, which no record carries or mentions"
+                          % (si, st, n), prop="C09")
+            return
 
 
 def _once_headers(canon):
